@@ -4,7 +4,7 @@ import LunaVerif.Lemmas.C07StreamRun
 
 GET_DESCRIPTOR of a 70-byte descriptor with wLength 100 (two data packets, 64 + 6 bytes, DATA1 / DATA0, the
 `start_position` advance on the ACK in between, a bulk IN transaction with its own ACK between the two data-stage INs),
-GET_STATUS, SET_CONFIGURATION(3), GET_CONFIGURATION (answer `[3]`), GET_DESCRIPTOR of a missing descriptor (STALL),
+GET_STATUS, SET_CONFIGURATION(3), GET_CONFIGURATION (answer `[3]`), GET_DESCRIPTOR of a missing descriptor (STALL, after a latency and in the start cycle),
 a zero-length data packet (descriptor of exactly 64 bytes, wLength 100), a bus reset.  Every stream window has stalled
 `tx.ready` cycles and a streamer latency of 3 cycles.
 -/
@@ -42,8 +42,9 @@ def exHistoryS : List (Stim × GapsS) :=
   [setupTok, setupData [0x00, 9, 3, 0, 0, 0, 0, 0], inTok 0, hostAck] ++
   -- GET_CONFIGURATION
   [setupTok, setupData [0x80, 8, 0, 0, 0, 0, 1, 0], inTok 1, hostAck] ++ statusOut ++
-  -- GET_DESCRIPTOR(type 9): STALL
+  -- GET_DESCRIPTOR(type 9): STALL after the block handler's latency; then STALL in the start cycle (distributed handler)
   [setupTok, setupData [0x80, 6, 0, 9, 0, 0, 18, 0], inTok 0] ++
+  [setupTok, setupData [0x80, 6, 0, 9, 0, 0, 18, 0], (⟨.token PID_IN 0 0, .none⟩, { exG 0 with stallNow := true })] ++
   -- GET_DESCRIPTOR(type 3, 64 bytes, wLength 100): full packet, then a zero-length packet
   [setupTok, setupData [0x80, 6, 0, 3, 0, 0, 100, 0], inTok 64, hostAck, inTok 0, hostAck] ++ statusOut ++
   -- bus reset
@@ -52,7 +53,7 @@ def exHistoryS : List (Stim × GapsS) :=
 -- the hypotheses of `cycle_refines_event_streams_from_reset`
 example : exCfgS.extra = [] ∧ exCfgS.maxPacket = 64 := ⟨rfl, rfl⟩
 example : FitsFrom exCfgS Device.init exHistoryS = true := by decide +kernel
-example : (expandAllR exCfgS Device.init exHistoryS).length = 405 := by decide +kernel
+example : (expandAllR exCfgS Device.init exHistoryS).length = 424 := by decide +kernel
 -- what the event-level model answers
 example : coreResps exCfgS Device.init (exHistoryS.map (·.1)) =
     [.none, .hs PID_ACK, .data PID_DATA1 (List.range 64), .none, .none, .none,
@@ -60,6 +61,7 @@ example : coreResps exCfgS Device.init (exHistoryS.map (·.1)) =
      .none, .hs PID_ACK, .data PID_DATA1 [0, 0], .none, .none, .hs PID_ACK,
      .none, .hs PID_ACK, .data PID_DATA1 [], .none,
      .none, .hs PID_ACK, .data PID_DATA1 [3], .none, .none, .hs PID_ACK,
+     .none, .hs PID_ACK, .hs PID_STALL,
      .none, .hs PID_ACK, .hs PID_STALL,
      .none, .hs PID_ACK, .data PID_DATA1 (List.range 64), .none, .data PID_DATA0 [], .none, .none, .hs PID_ACK,
      .none] := by decide +kernel
